@@ -529,7 +529,7 @@ void Process::run(const String& command, const Array<String>& args)
 			//pid_t sid = setsid();
 		}
 		exec(command, args);
-		_exit(0);
+		_exit(127);
         break;
 
 	default: // parent
